@@ -689,10 +689,12 @@ class Model:
                             support = ambset
                     ew_constr = ew_constr.forall(support)
                 else:
-                    ew_constr = LinConstr(ew_constr.affine.model,
-                                          ew_constr.affine.linear,
-                                          ew_constr.affine.const,
-                                          ew_constr.sense)
+                    affine = ew_constr.affine
+                    affine = affine.reshape((affine.size, ))
+                    if np.all(ew_constr.sense):
+                        ew_constr = (affine == 0)
+                    else:
+                        ew_constr = (affine <= 0)
 
             ro_constr.append(ew_constr)
 
